@@ -7,9 +7,11 @@ import json, os, subprocess, sys, collections
 ROOT = '/verif'
 VCHECK = os.environ.get('VCHECK_BIN', ROOT + '/harness/target/release/vcheck')
 
-def cls_of(row):
+TAG_CLASSIFIED = {'C01', 'C03', 'C14', 'C15', 'C17'}
+
+def cls_of(row, prop):
     head = row['detail'].split('\n')[0]
-    if 'tags=' in head:
+    if prop in TAG_CLASSIFIED and 'tags=' in head and row['kind'] == 'semantic':
         t = head.split('tags=')[1].split(',')[0].strip()
         return t if t else 'untagged'
     return row['kind']
@@ -35,7 +37,7 @@ def main():
                 print('machinery error; not harvesting', prop, tier); sys.exit(2)
             for l in open(dump):
                 row = json.loads(l)
-                groups[cls_of(row)].add(row['key'])
+                groups[cls_of(row, prop)].add(row['key'])
         for c, keys in sorted(groups.items()):
             fn = f'known_cases/{prop}.{c}.txt'
             if fn not in declared:
